@@ -2,6 +2,12 @@
 and the signature function that labels a failing case for known_findings.jsonl."""
 
 PROPS = {
+    'C13': {
+        'families': [('c13', 6, 60)],
+        'rule': 'generated valid archives (CARv1, CARv2 with padding and index) and structure-aware corruptions of them: a bit flip / increment / decrement / random byte at (a stride over) every offset, truncations, trailing null padding, CARv2 cut at the payload end, inner-header version changed, last section length enlarged; each input through Reader.Inspect(true) and Inspect(false) x ZeroLengthSectionAsEOF; the verdict and every Stats field compared with the model and (full validation) with the statistics of the verifying block-reader scan; distinct = distinct script text',
+        'trusted': ['multihash.SumStream = hash of the bytes it is given (hash parameter H)'],
+        'assumptions': ['MaxAllowedSectionSize <= 32 MiB so that CidFromReader\'s digest cap never bites (explicit hypothesis of the theorems)'],
+    },
     'C11': {
         'families': [('c11', 150, 2000)],
         'rule': 'generated record multisets (hash codes incl. identity and a 4-byte code, digest widths 0..70, duplicate digests with other offsets / other hash codes, offsets up to 2^63-1) loaded in a random permutation into both on-disk codecs; WriteTo byte count vs bytes written, bytes compared with the identity-order load when no digest is shared, ReadFrom of the bytes, then GetAll/GetFirst for every record CID and absent CIDs and ForEach on the re-read index, all compared with model and with the record multiset; distinct = distinct script text',
@@ -120,6 +126,8 @@ def signature(pid, script, I, S):
         return 'C10/' + toks.get('op', '?') + '-' + toks.get('dst', '') + '-output-differs'
     if pid == 'C11':
         return 'C11/' + toks.get('codec', '?') + '-serialisation-differs'
+    if pid == 'C13':
+        return 'C13/inspect-full' + toks.get('full', '?') + '-differs-from-verifying-scan'
     if pid == 'C20':
         return 'C20/' + fam + '-differs-from-lazy-direct-writer'
     if pid == 'C06':
